@@ -372,6 +372,10 @@ type vmUnderTest struct {
 	since time.Time
 	loc   *time.Location
 	year  bool
+	// wall clock just before and just after the implementation ran the last line, and the store
+	// the model held before it: the model is given the same clock reading
+	t0, t1         time.Time
+	prevModelStore string
 }
 
 func compileProg(name, src string, opts ...compiler.Option) (*code.Object, error) {
@@ -409,7 +413,9 @@ func (u *vmUnderTest) runLine(filename, line string) (string, string) {
 				raw = "panic in thread (escaped): " + fmt.Sprint(e)
 			}
 		}()
+		u.t0 = time.Now()
 		u.v.ProcessLogLine(ctx, logline.New(ctx, filename, line))
+		u.t1 = time.Now()
 	}()
 	if raw == "" && expvarMapInt("prog_runtime_errors_total", u.name) > errsBefore {
 		raw = u.v.RuntimeErrorString()
@@ -442,18 +448,35 @@ func (u *vmUnderTest) loadIntoModel(m *modelSrv) string {
 	if a := m.ask(fmt.Sprintf("P %d %s", u.since.Unix(), encProg(u.obj))); a != "P ok" {
 		return "model rejects the program encoding: " + a
 	}
-	if a := m.ask("S " + encStore(u.obj.Metrics, u.since)); a != "S ok" {
+	u.prevModelStore = encStore(u.obj.Metrics, u.since)
+	if a := m.ask("S " + u.prevModelStore); a != "S ok" {
 		return "model rejects the store encoding: " + a
 	}
 	return ""
 }
 
 func (u *vmUnderTest) modelLine(m *modelSrv, filename, line string) (outcome, store, memo string) {
-	m.now = time.Now()
+	// the model reads the clock the implementation read: the reading taken just before the
+	// implementation ran the line (not "now", which may be seconds later on a loaded machine)
+	m.now = u.t0
+	if m.now.IsZero() {
+		m.now = time.Now()
+	}
 	a := m.ask("L " + hx(filename) + " " + hx(line))
 	f := strings.Fields(a)
 	if len(f) != 4 || f[0] != "R" {
 		return "model-error:" + strings.ReplaceAll(a, " ", "_"), "", ""
 	}
+	if !u.t0.IsZero() && u.t1.Unix() != u.t0.Unix() && f[2] != encStore(u.obj.Metrics, u.since) && u.prevModelStore != "" {
+		// the second changed while the implementation ran, and it shows: the implementation may
+		// have read the later second; give the model that one
+		if r := m.ask("S " + u.prevModelStore); r == "S ok" {
+			m.now = u.t1
+			if a2 := m.ask("L " + hx(filename) + " " + hx(line)); len(strings.Fields(a2)) == 4 {
+				f = strings.Fields(a2)
+			}
+		}
+	}
+	u.prevModelStore = f[2]
 	return canonModelOutcome(f[1]), f[2], f[3]
 }
